@@ -11,6 +11,7 @@
 From Coq Require Import ZArith NArith List Bool.
 From Flocq Require Import Core.Zaux IEEE754.BinarySingleNaN.
 From Common Require Import Bytes Outcome Blake2b.
+From C25 Require Export Secondary.
 Import ListNotations.
 Local Open Scope Z_scope.
 
@@ -121,12 +122,3 @@ Definition split128 (t : N) : N * N := ((t / 18446744073709551616)%N, (t mod 184
 Definition check_primary_threshold (res : list byte) (threshold : N) : bool :=
   match u128_compare (u128_of_le16 res) (split128 threshold) with Lt => true | _ => false end.
 
-(* ------------------------------------------------------------------ getSecondarySlotAuthor *)
-(* blake2b-256 (randomness ++ slot as u64 LE), read big endian, big.Int.Mod numAuths
-   (Euclidean; panics on 0), truncated by uint32(idx.Uint64()) *)
-Definition secondary_preimage (randomness : list byte) (slot : N) : list byte :=
-  randomness ++ le_bytes 8 slot.
-Definition secondary_slot_author (slot : N) (n : Z) (randomness : list byte) : outcome N :=
-  let h := blake2b_256 (secondary_preimage randomness slot) in
-  if n =? 0 then Panic
-  else Ok ((be_val h mod Z.to_N (Z.abs n)) mod 4294967296)%N.
